@@ -49,6 +49,7 @@ func (g *gen) depth() int { return len(g.wd.art.stageCps) }
 func (g *gen) finish(alt int) {
 	g.do("view")
 	g.do("tdump")
+	g.do("rbtchk")
 	g.do("snapchk")
 	for d := g.depth(); d > 0; d-- {
 		if (d+alt)%2 == 0 {
@@ -742,12 +743,15 @@ func (g *gen) paths(variant int) {
 		}
 		if fan <= 18 || i%16 == 0 || i == len(pool)-1 {
 			g.do("tdump")
+			g.do("rbtchk")
 		}
 		if i%3 == 0 {
 			probe(pool[r.Intn(i+1)])
 		}
 	}
 	g.do("tdump")
+	g.do("rbtchk")
+	g.do("rbtkeys")
 	g.do("tkeys 0")
 	g.do("tkeys 1")
 	g.do("iterf - -")
